@@ -5,7 +5,7 @@
 (* rank]: id is the identity of the Go object (two objects may carry the   *)
 (* same hash: a block received twice), weight = 2^-rank, so "heaviest      *)
 (* first" = ascending rank.                                                *)
-(* Named deviation: UpdateStoresGiven = FALSE is the code as written       *)
+(* Named deviation: UpdateStoresGiven = FALSE is the code before de713b8     *)
 (* (entity.go:359-363 `r.notarizedBlocks[i] = nb` re-stores the OLD        *)
 (* object), TRUE is what the property states.                              *)
 (***************************************************************************)
